@@ -1451,6 +1451,12 @@ def la_norm(it, a, ord=None, **k):
     sq = lambda x: V.add(V.mul(V.real_part(x), V.real_part(x)), V.mul(V.imag_part(x), V.imag_part(x)))
     if isinstance(a, CArr):
         s = functools.reduce(V.add, [sq(v) for v in a.data.flat], 0)
+        if is_sym(s):
+            r_ = V.sqrt(s)
+            # library fact about the Euclidean norm: ||x|| = 0  <=>  every entry is 0   (a sum of squares vanishes only if every square does)
+            zero_all = z3.And(*[z3.And(V.zreal(V.real_part(v)) == 0, V.zreal(V.imag_part(v)) == 0) for v in a.data.flat])
+            V._side(z3.And(V.zreal(s) >= 0, (V.zreal(r_) == 0) == zero_all))
+            return r_
     else:
         if a.ndim != 1:
             raise Unsupported('norm of symbolic nd array')
